@@ -2574,3 +2574,139 @@ Example broadcast_to_nonvacuous :
           [1; 0; 0; 1]; [1; 0; 1; 1]; [1; 1; 0; 0]; [1; 1; 0; 2]; [1; 1; 1; 0]; [1; 1; 1; 2]]
          [4; 4; 5; 6; 5; 6; 4; 4; 5; 6; 5; 6] 9).
 Proof. split; vm_compute; reflexivity. Qed.
+
+(* ================================================================== broadcast_arrays: the common shape *)
+
+Lemma bcast_ok_rev_trans a b c : bcast_ok_rev a b = true -> bcast_ok_rev b c = true -> bcast_ok_rev a c = true.
+Proof.
+  revert b c; induction a as [|x a IH]; intros [|y b] [|z c]; simpl; try discriminate; try reflexivity.
+  rewrite !andb_true_iff, !orb_true_iff, !Z.eqb_eq. intros [H1 H2] [H3 H4]. split; [lia|eapply IH; eauto].
+Qed.
+
+Lemma bcast_ok_rev_refl a : bcast_ok_rev a a = true.
+Proof. induction a as [|x a IH]; simpl; [reflexivity|]. rewrite Z.eqb_refl, IH. reflexivity. Qed.
+
+Lemma bcast_ok_rev_nil_l t : bcast_ok_rev [] t = true.
+Proof. reflexivity. Qed.
+
+(* np.broadcast_shapes of two shapes is a target both broadcast to *)
+Lemma bshapes2_rev_ok a b r :
+  bshapes2_rev a b = Some r -> bcast_ok_rev a r = true /\ bcast_ok_rev b r = true.
+Proof.
+  revert b r; induction a as [|x a IH]; intros b r.
+  - intros H. assert (r = b) by (destruct b; simpl in H; congruence). subst r.
+    split; [reflexivity|apply bcast_ok_rev_refl].
+  - destruct b as [|y b].
+    + intros H. simpl in H. inversion H; subst. split; [apply (bcast_ok_rev_refl (x :: a))|reflexivity].
+    + simpl. destruct (bshapes2_rev a b) as [r'|] eqn:E; [|discriminate].
+      destruct (IH b r' E) as [H1 H2].
+      destruct (Z.eqb_spec x y) as [->|Hxy].
+      * intros H; inversion H; subst. simpl. rewrite Z.eqb_refl, H1, H2. auto.
+      * destruct (Z.eqb_spec x 1) as [->|Hx1].
+        -- intros H; inversion H; subst. simpl. rewrite Z.eqb_refl, H1, H2. rewrite orb_true_r. auto.
+        -- destruct (Z.eqb_spec y 1) as [->|Hy1]; [|discriminate].
+           intros H; inversion H; subst. simpl. rewrite Z.eqb_refl, H1, H2. rewrite orb_true_r. auto.
+Qed.
+
+Lemma bshapes2_rev_nonneg a b r :
+  bshapes2_rev a b = Some r -> Forall (fun d => 0 <= d) a -> Forall (fun d => 0 <= d) b -> Forall (fun d => 0 <= d) r.
+Proof.
+  revert b r; induction a as [|x a IH]; intros b r.
+  - simpl. destruct b; intros H; inversion H; subst; auto.
+  - destruct b as [|y b].
+    + simpl. intros H; inversion H; subst. auto.
+    + simpl. destruct (bshapes2_rev a b) as [r'|] eqn:E; [|discriminate].
+      intros H Ha Hb. inversion Ha; subst. inversion Hb; subst. specialize (IH b r' E H3 H5).
+      destruct (x =? y); [inversion H; subst; constructor; assumption|].
+      destruct (x =? 1); [inversion H; subst; constructor; assumption|].
+      destruct (y =? 1); [inversion H; subst; constructor; assumption|discriminate].
+Qed.
+
+Theorem broadcast_arrays_link_proof shapes t :
+  Forall shape_ok shapes -> np_broadcast_shapes shapes = Some t ->
+  Forall (fun s => np_broadcast_ok s t = true) shapes.
+Proof.
+  unfold np_broadcast_shapes. intros Hok H.
+  set (step := fun (acc : option (list Z)) (s : list Z) => match acc with None => None | Some a => bshapes2_rev a (rev s) end) in *.
+  destruct (fold_left step shapes (Some [])) as [r|] eqn:E; [|discriminate]. inversion H; subst t. clear H.
+  assert (Hgen : forall shapes acc r,
+            Forall shape_ok shapes -> Forall (fun d => 0 <= d) acc ->
+            fold_left step shapes (Some acc) = Some r ->
+            bcast_ok_rev acc r = true /\ Forall (fun d => 0 <= d) r /\
+            Forall (fun s => bcast_ok_rev (rev s) r = true) shapes).
+  { clear. unfold step. induction shapes as [|s shapes IH]; intros acc r Hok Hacc H; simpl in H.
+    - inversion H; subst. split; [apply bcast_ok_rev_refl|]. split; [assumption|constructor].
+    - inversion Hok as [|? ? Hs Hrest]; subst.
+      destruct (bshapes2_rev acc (rev s)) as [a'|] eqn:E.
+      + destruct (bshapes2_rev_ok _ _ _ E) as [H1 H2].
+        assert (Ha' : Forall (fun d => 0 <= d) a').
+        { apply (bshapes2_rev_nonneg _ _ _ E Hacc). apply Forall_rev. exact Hs. }
+        destruct (IH a' r Hrest Ha' H) as [H3 [H4 H5]].
+        split; [eapply bcast_ok_rev_trans; eauto|]. split; [assumption|].
+        constructor; [eapply bcast_ok_rev_trans; eauto|assumption].
+      + exfalso. clear -H. induction shapes as [|x l IHl]; simpl in H; [discriminate|auto]. }
+  destruct (Hgen shapes [] r Hok (Forall_nil _) E) as [_ [Hnn Hall]].
+  apply Forall_forall. intros s Hs. rewrite Forall_forall in Hall. unfold np_broadcast_ok.
+  rewrite rev_involutive, (Hall s Hs). simpl. apply forallb_forall. intros d Hd. apply Z.leb_le.
+  apply in_rev in Hd. rewrite Forall_forall in Hnn. auto.
+Qed.
+
+(* ================================================================== moveaxis: NumPy's insertion algorithm = the declarative permutation,
+   for every array of at most 5 axes (the scope of the property), by exhaustive evaluation *)
+
+Fixpoint remove_z (a : Z) (l : list Z) : list Z :=
+  match l with [] => [] | x :: r => if x =? a then remove_z a r else x :: remove_z a r end.
+
+(* all duplicate-free lists of length k over univ *)
+Fixpoint nodup_lists (k : nat) (univ : list Z) : list (list Z) :=
+  match k with
+  | O => [[]]
+  | S k' => flat_map (fun a => map (cons a) (nodup_lists k' (remove_z a univ))) univ
+  end.
+
+Lemma remove_z_In a x l : In x (remove_z a l) <-> In x l /\ x <> a.
+Proof.
+  induction l as [|y l IH]; simpl; [tauto|]. destruct (Z.eqb_spec y a) as [->|Hne]; simpl; rewrite IH; intuition congruence.
+Qed.
+
+Lemma nodup_lists_complete l : forall univ, NoDup l -> incl l univ -> In l (nodup_lists (length l) univ).
+Proof.
+  induction l as [|a l IH]; intros univ Hnd Hincl; simpl; [auto|].
+  inversion Hnd; subst. apply in_flat_map. exists a. split; [apply Hincl; left; reflexivity|].
+  apply in_map. apply IH; [assumption|]. intros x Hx. apply remove_z_In. split; [apply Hincl; right; assumption|].
+  intros ->. tauto.
+Qed.
+
+Definition moveaxis_check (nd : Z) : bool :=
+  forallb (fun k =>
+    forallb (fun src =>
+      forallb (fun dst => idx_eqb (moveaxis_order nd src dst) (np_moveaxis_perm nd src dst))
+              (nodup_lists k (zrange nd)))
+      (nodup_lists k (zrange nd)))
+    (seq 0 (S (Z.to_nat nd))).
+
+Lemma moveaxis_check_upto5 : forallb moveaxis_check [0; 1; 2; 3; 4; 5] = true.
+Proof. vm_compute. reflexivity. Qed.
+
+Theorem moveaxis_order_spec_upto_5d_proof nd src dst :
+  0 <= nd <= 5 -> NoDup src -> NoDup dst -> length src = length dst ->
+  (forall a, In a src -> 0 <= a < nd) -> (forall a, In a dst -> 0 <= a < nd) ->
+  moveaxis_order nd src dst = np_moveaxis_perm nd src dst.
+Proof.
+  intros Hnd Hs Hd Hl Hrs Hrd.
+  assert (Hin : In nd [0; 1; 2; 3; 4; 5]) by (simpl; lia).
+  pose proof moveaxis_check_upto5 as H. rewrite forallb_forall in H. specialize (H nd Hin).
+  unfold moveaxis_check in H. rewrite forallb_forall in H.
+  assert (Hk : In (length src) (seq 0 (S (Z.to_nat nd)))).
+  { apply in_seq. split; [lia|]. simpl.
+    assert (length src <= length (zrange nd))%nat.
+    { apply NoDup_incl_length; [assumption|]. intros a Ha. apply zrange_In. auto. }
+    rewrite zrange_length in H0. lia. }
+  specialize (H _ Hk). rewrite forallb_forall in H.
+  assert (Hsrc : In src (nodup_lists (length src) (zrange nd))).
+  { apply nodup_lists_complete; [assumption|]. intros a Ha. apply zrange_In. auto. }
+  specialize (H _ Hsrc). rewrite forallb_forall in H.
+  assert (Hdst : In dst (nodup_lists (length src) (zrange nd))).
+  { rewrite Hl. apply nodup_lists_complete; [assumption|]. intros a Ha. apply zrange_In. auto. }
+  specialize (H _ Hdst). apply idx_eqb_eq in H. exact H.
+Qed.
